@@ -30,9 +30,9 @@ Lemma promote_gq_sq abc def g p : surf_f (gq_of_sq abc def g) p = surf_f (SSimpl
 Proof. unfold gq_of_sq, surf_f; tsimp; ring. Qed.
 
 (** ** SurfaceTranslator: f' (p + t) = f p
-    [translate_surface_gen true] is the translator with the constant term of
-    the SimpleQuadric case repaired; the code as it stands ([... false]) is
-    off by  first . t  for a SimpleQuadric (translate_sq_refuted). *)
+    [translate_surface = translate_surface_gen true] is the translator as coded
+    (since the repair 9730bb5); the pre-repair variant ([... false]) is off by
+    first . t  for a SimpleQuadric (translate_sq_refuted). *)
 Theorem translate_value_gen fixed tra s p :
   surf_f (translate_surface_gen fixed tra s) (tr_up tra p)
   = surf_f s p - (match s with
@@ -44,28 +44,29 @@ Proof.
     field.
 Qed.
 Theorem translate_value tra s p :
-  surf_f (translate_surface_gen true tra s) (tr_up tra p) = surf_f s p.
-Proof. rewrite translate_value_gen. destruct s; ring. Qed.
+  surf_f (translate_surface tra s) (tr_up tra p) = surf_f s p.
+Proof. unfold translate_surface. rewrite translate_value_gen. destruct s; ring. Qed.
 Theorem translate_sense tra s p :
-  surf_sense (translate_surface_gen true tra s) (tr_up tra p) = surf_sense s p.
-Proof. rewrite !surf_sense_value, translate_value. reflexivity. Qed.
-(** the code as it stands is correct for every type but SimpleQuadric, and for
-    a SimpleQuadric when first . t = 0 *)
-Theorem translate_sense_as_coded tra s p :
-  (match s with SSimpleQuadric _ def _ => vdot def tra = 0 | _ => True end) ->
   surf_sense (translate_surface tra s) (tr_up tra p) = surf_sense s p.
+Proof. rewrite !surf_sense_value, translate_value. reflexivity. Qed.
+(** the pre-repair translator was correct for every type but SimpleQuadric, and
+    for a SimpleQuadric when first . t = 0 *)
+Theorem translate_sense_before_repair tra s p :
+  (match s with SSimpleQuadric _ def _ => vdot def tra = 0 | _ => True end) ->
+  surf_sense (translate_surface_gen false tra s) (tr_up tra p) = surf_sense s p.
 Proof.
-  intros Hs. rewrite !surf_sense_value. unfold translate_surface. rewrite translate_value_gen.
+  intros Hs. rewrite !surf_sense_value. rewrite translate_value_gen.
   destruct s; try (f_equal; ring). rewrite Hs. f_equal; ring.
 Qed.
-(** witness: the unit sphere around (1,0,0) written as a SimpleQuadric,
-    translated by (1,0,0): its centre (2,0,0) is inside, but the translated
-    quadric x^2 - 4x + 5 + y^2 + z^2 has no points at all *)
+(** witness of the defect: the unit sphere around (1,0,0) written as a
+    SimpleQuadric, translated by (1,0,0): its centre (2,0,0) is inside, but the
+    pre-repair result x^2 - 4x + 5 + y^2 + z^2 has no points at all *)
 Theorem translate_sq_refuted :
-  exists tra s p, surf_sense s p = Inside /\ surf_sense (translate_surface tra s) (tr_up tra p) = Outside.
+  exists tra s p, surf_sense s p = Inside /\
+                  surf_sense (translate_surface_gen false tra s) (tr_up tra p) = Outside.
 Proof.
   exists (V3 1 0 0), (SSimpleQuadric (V3 1 1 1) (V3 (-2) 0 0) 0), (V3 1 0 0).
-  rewrite !surf_sense_value. unfold translate_surface. rewrite translate_value_gen.
+  rewrite !surf_sense_value. rewrite translate_value_gen.
   unfold surf_f, real_to_sense; tsimp.
   split.
   - destruct (Rltb_spec (1 * (1 * 1) + 1 * (0 * 0) + 1 * (0 * 0) + -2 * 1 + 0 * 0 + 0 * 0 + 0) 0); [reflexivity|lra].
